@@ -480,6 +480,11 @@ def intrinsic (d : Dialect) (name : String) (args : List Val) : CM Val := do
   -- sign on integers (HLSL intrinsic, GLSL builtin; MSL has it for floats only and naga expands the integer case)
   | _, "sign", [x] => vmap (fun v => match v with
       | .i32 a => pure (.i32 (if a.toInt > 0 then 1#32 else if a.toInt < 0 then 0xFFFFFFFF#32 else 0#32))
+      | .f32 a =>
+        -- HLSL: "sign: returns int" for every operand type (−1, 0, 1); MSL / GLSL return the floating-point type
+        let x := f32OfBits a
+        if d == .hlsl then pure (.i32 (if x > 0 then 1#32 else if x < 0 then 0xFFFFFFFF#32 else 0#32))
+        else pure (.f32 (fun1 fSignF a))
       | _ => throw (.unsupported "function sign on a non-integer")) x
   -- rounding to an integral value (exact; the languages differ only in the direction of ties)
   | _, "floor", [x] => fl1 Float32.floor x
